@@ -639,6 +639,12 @@ def run_unit(ctx):
                     (leaf + py_node(1, [(0, 0, [0], 0), (0, 0, [4], 0)], (0, 0, [U64])), len(leaf)),
                     (py_node(1, [(0, 0, [0], 100)], (0, 0, [U64])).ljust(100, b"\0") + py_node(1, [(0, 0, [0], 0)], (0, 0, [U64])), 0),
                     (py_node(2, [(0, 0, [0], 100)], (0, 0, [U64])).ljust(100, b"\0") + py_node(1, [(0, 0, [0], 0)], (0, 0, [U64])), 0),
+                    # root (level 1) -> node of the SAME level 1 -> leaf: refused by the level guard although acyclic
+                    (leaf.ljust(100, b"\0") + py_node(1, [(0, 0, [0], 0)], (0, 0, [U64])).ljust(100, b"\0")
+                     + py_node(1, [(0, 0, [0], 100)], (0, 0, [U64])), 200),
+                    # ... and a child one level ABOVE its parent
+                    (leaf.ljust(100, b"\0") + py_node(2, [(0, 0, [0], 0)], (0, 0, [U64])).ljust(100, b"\0")
+                     + py_node(1, [(0, 0, [0], 100)], (0, 0, [U64])), 200),
                     (py_node(0, [], (0, 0, [U64]), used=0), 0), (py_node(3, [], (0, 0, [U64]), used=0), 0),
                     (py_node(0, [(8, 0, [0], 500)], (0, 0, [U64]), ntype=0), 0)]:
         tree_cases.append(dict(mode="indexraw", file=f.hex(), root=root, osz=8, ndims=1, cdims=[4]))
